@@ -87,3 +87,28 @@ Example C03_codec_example :
   parse_line (print (JObj (("k"%string, JArr (JStr s :: JNum "-1.5e+3"%string :: JNull :: nil)) :: nil))) =
   Some (JObj (("k"%string, JArr (JStr s :: JNum "-1.5e+3"%string :: JNull :: nil)) :: nil)).
 Proof. vm_compute. reflexivity. Qed.
+
+(* ---------- the whole log ---------- *)
+From Model Require Import Stream.
+From Proofs Require Import StreamProofs StreamIdem.
+
+(* The property at the level of a whole output file: for every input text, the fault-free output is the newline-terminated concatenation of lines each of
+   which comes from ONE line l of the input that parses as a tree t, parses back to exactly the redacted tree of t, and has the shape of t (same keys in
+   the same order, same array lengths, every leaf of its JSON kind) - no emitted line is anything else. *)
+Theorem C03_emitted_log : forall tb cs c enc data,
+  eager c = nil ->
+  (valid_string (c_isodate cs) /\ valid_string (c_oid cs) /\ valid_string (c_uuid cs) /\ valid_string (c_email cs) /\ valid_string (repl c)) ->
+  (forall f s ct, enc = Some f -> f s = Some ct -> valid_string ct) ->
+  let toks := fst (scan data REof) in
+  stream tb cs c enc data = lf_text (outs tb cs c enc toks) /\
+  forall o, In o (outs tb cs c enc toks) ->
+    exists l t, In l toks /\ parse_line l = Some t /\
+                parse_line o = Some (redact_tree tb cs c (real_actions cs c enc) t) /\
+                shape_of (redact_tree tb cs c (real_actions cs c enc) t) = shape_of t.
+Proof.
+  intros tb cs c enc data He Hc Henc toks. split; [apply stream_outs|].
+  intros o Ho. apply outs_in in Ho. destruct Ho as (l & Hl & Hr).
+  destruct (C03_emitted_line tb cs c enc l o He Hc Henc Hr) as (t & Hp & Ho & Hs).
+  exists l, t. repeat split; assumption.
+Qed.
+Print Assumptions C03_emitted_log.
